@@ -1,0 +1,70 @@
+// SPDX-License-Identifier: MIT OR Apache-2.0
+
+//! Verification-only seam, compiled with the `verif-hooks` cargo feature (off by default).
+//!
+//! `FirBuilder` keeps its entries in a `HashMap` whose `RandomState` differs per map
+//! instance and per process, which makes the wire order of FIR entries the only source
+//! of nondeterminism in this crate.  With the feature enabled the map uses
+//! [`SimHashState`] instead, whose key is a thread-local value chosen by the caller
+//! through [`set_hash_seed`], so that a deterministic simulator can decide (and replay)
+//! the order.
+
+use std::cell::Cell;
+use std::hash::{BuildHasher, Hasher};
+
+thread_local! {
+    static HASH_SEED: Cell<u64> = Cell::new(0);
+}
+
+/// Sets the key that every `FirBuilder` created afterwards on this thread will hash with.
+pub fn set_hash_seed(seed: u64) {
+    HASH_SEED.with(|s| s.set(seed));
+}
+
+/// The key currently in effect on this thread.
+pub fn hash_seed() -> u64 {
+    HASH_SEED.with(|s| s.get())
+}
+
+/// A `BuildHasher` keyed by the thread-local seed in effect when it is created.
+#[derive(Clone, Debug)]
+pub struct SimHashState {
+    key: u64,
+}
+
+impl Default for SimHashState {
+    fn default() -> Self {
+        Self { key: hash_seed() }
+    }
+}
+
+impl BuildHasher for SimHashState {
+    type Hasher = SimHasher;
+
+    fn build_hasher(&self) -> SimHasher {
+        SimHasher {
+            state: self.key ^ 0xcbf2_9ce4_8422_2325,
+        }
+    }
+}
+
+/// Keyed FNV-1a with a splitmix64 finaliser.
+#[derive(Clone, Debug)]
+pub struct SimHasher {
+    state: u64,
+}
+
+impl Hasher for SimHasher {
+    fn write(&mut self, bytes: &[u8]) {
+        for b in bytes {
+            self.state = (self.state ^ *b as u64).wrapping_mul(0x0000_0100_0000_01b3);
+        }
+    }
+
+    fn finish(&self) -> u64 {
+        let mut z = self.state.wrapping_add(0x9e37_79b9_7f4a_7c15);
+        z = (z ^ (z >> 30)).wrapping_mul(0xbf58_476d_1ce4_e5b9);
+        z = (z ^ (z >> 27)).wrapping_mul(0x94d0_49bb_1331_11eb);
+        z ^ (z >> 31)
+    }
+}
